@@ -52,6 +52,11 @@ def run(ctx: RuleContext):
     from .c18 import check_hash
 
     ctx.reuse("C11.7", check_hash, ctx)
+    # C11.8: "... checked by the checker given to the install call that loaded them, for every order of install, import, uninstall": the
+    # decorator table keeps its entries (C10.6: stored on every path of Typechecker.__init__, never removed, held strongly)
+    from .c10 import check_template
+
+    ctx.reuse("C11.8", check_template, ctx)
 
 
 # ------------------------------------------------------------------------ C11.1
@@ -276,6 +281,23 @@ def check_predicate(ctx):
                 mvar = ge.generators[0].target.id
                 pred = ge.elt
     if pred is None:
+        # a positive witness that needs no table: the name is tested against the whole list with a bare prefix test
+        # (`name.startswith(tuple(self.modules))`): `foobar` is instrumented for `foo` -- the `.` boundary is gone
+        for c_ in ast.walk(f.node):
+            if isinstance(c_, ast.Call) and isinstance(c_.func, ast.Attribute) and c_.func.attr == "startswith" and c_.args and f"{f.params[0]}.modules" in norm(c_.args[0]) \
+                    and not any(isinstance(x_, ast.BinOp) for x_ in ast.walk(c_.args[0])):
+                ctx.bad("C11.2", f, c_, f"`{short(c_, 60)}`: a module is instrumented when its name merely *starts with* a configured name (no `.` boundary, no equality): with a hook for "
+                        "`foo`, the unrelated `foobar` / `foo_contrib` are instrumented too", construct="bare prefix test against the module list")
+                return
+        # ... or compiled into a regular expression without escaping them: the `.` of a dotted name then matches any character
+        cls_ = f.cls
+        for g2 in (cls_.methods.values() if cls_ is not None else []):
+            for c_ in ast.walk(g2.node):
+                if isinstance(c_, ast.Call) and norm(c_.func) in ("re.compile", "re.match", "re.fullmatch", "re.search") and c_.args and "modules" in norm(c_.args[0]) \
+                        and "escape" not in norm(c_.args[0]):
+                    ctx.bad("C11.2", g2, c_, f"`{short(c_, 70)}`: the configured names are put into a regular expression unescaped: in a dotted name (`pkg.utils`) the `.` matches any "
+                            "character, so the unrelated `pkg_utils` / `pkgxutils` (and their sub-modules) are instrumented too", construct="module names compiled into a regex without re.escape")
+                    return
         raise AnalysisError("C11.2: should_instrument has a shape the rule does not recognise (expected a loop / any() over self.modules)")
     bad = []
     for rel in REL:
